@@ -898,6 +898,13 @@ def rule_lazy_prefixed_units(ck, ix):
         if isinstance(nd, ast.Assign) and isinstance(nd.targets[0], ast.Subscript):
             key = norm(defs.inline(nd.targets[0].slice))
             ck.check(key == "prefix + unit_name", "G-MEMO-KEY", "memo=Registry:_units(lazy-prefixed)|key", fi.loc(nd), "stored under the canonical long name", f"the lazily added unit is stored under `{key}`, not the canonical prefix + unit_name")
+    yt = ix.func(PR, "GenericPlainRegistry._yield_unit_triplets")
+    ck.analysed(yt)
+    guard = [t for t in walk_local(yt.node) if isinstance(t, ast.If) and "prefix" in norm(t.test) and "_units_casei" in norm(t.test)]
+    ok = bool(guard) and any(isinstance(x, ast.Continue) for g in guard for x in ast.walk(g)) and all("not in" in norm(g.test) for g in guard)
+    ck.check(ok, "G-DOM", "_yield_unit_triplets|prefix-only-on-defined-spellings", yt.loc(guard[0]) if guard else yt.loc(),
+             "a prefix is only applied to defined spellings (not to prefixed units registered lazily by an earlier lookup)",
+             "prefixes are applied to any key of the unit table, including lazily registered prefixed units: 'kilomillifoot' parses after 'millifoot' was looked up, a fresh registry rejects it")
     # symbol / casei twin lookups are read-only
     for q in ("GenericPlainRegistry.get_symbol", "GenericPlainRegistry.get_dimensionality", "GenericPlainRegistry.get_root_units", "GenericPlainRegistry.get_compatible_units", "GenericPlainRegistry._get_compatible_units"):
         f = ix.func(PR, q)
